@@ -25,6 +25,18 @@ PROPS = {
                 'non-trivial = not refused at position 0 with no event',
         'assumptions': ASSUME_COMMON,
     },
+    'C13': {
+        'lean': ['Purr.Props.C13'],
+        'suites': [
+            {'name': 'pool', 'exhaustive': False},
+            {'name': 'graph', 'fields': ['V', 'EV'], 'nontrivial': lambda rq, resp: ' J:' in resp},
+        ],
+        'rule': 'pool: every open/close interleaving of up to 5 (thorough 6) pairs (canonical pair naming), sequential runs of 10..10^4 '
+                'rings followed by fused ones, 98..150 simultaneously open closures, random hit sequences; graph: all small graphs, '
+                'random well-formed ring systems, ring-rich combs with up to 120 open closures, 5/120/300 sequential rings then a fused '
+                'bicycle. non-trivial (graph) = the traversal emitted at least one join; distinct = distinct request lines',
+        'assumptions': ASSUME_COMMON,
+    },
     'C16': {
         'lean': ['Purr.Props.C16'],
         'suites': [
